@@ -241,3 +241,882 @@ pub proof fn theorem_response_roundtrip_single(v: Seq<char>, code: i16, reason: 
     assert(all[hs.len() as int] == framing(list)[0]);
     assert(ctype_of(all) == Some(p.content_type@));
 }
+
+// =====================================================================================================================
+// multipart/byteranges (2 or more parts)
+// =====================================================================================================================
+pub open spec fn ends_lf(x: Seq<u8>) -> bool { x.len() > 0 && x.last() == 10u8 }
+
+// lines of  x ++ t  when x ends with a line feed: the first line is the first line of x
+pub proof fn lemma_line_prefix(x: Seq<u8>, t: Seq<u8>)
+    requires ends_lf(x),
+    ensures first_line(x + t) == first_line(x), after_line(x + t) == after_line(x) + t, after_line(x).len() == 0 || ends_lf(after_line(x)),
+    decreases x.len()
+{
+    let r = x + t;
+    lemma_line_len(x);
+    if x[0] == 10u8 {
+        assert(r[0] == 10u8);
+        assert(line_len(r) == 1 && line_len(x) == 1);
+    } else {
+        assert(r[0] == x[0]);
+        let x1 = x.subrange(1, x.len() as int);
+        assert(x1.len() > 0) by { if x.len() == 1 { assert(x[0] == x.last()); } }
+        assert(x1.last() == x.last());
+        assert(r.subrange(1, r.len() as int) =~= x1 + t);
+        lemma_line_prefix(x1, t);
+        lemma_line_len(x1);
+        lemma_line_len(x1 + t);
+        assert(first_line(x1 + t).len() == line_len(x1 + t));
+        assert(first_line(x1).len() == line_len(x1));
+        assert(line_len(x1 + t) == line_len(x1));
+        assert(line_len(r) == 1 + line_len(x1 + t));
+        assert(line_len(x) == 1 + line_len(x1));
+        assert(first_line(x1 + t).len() == first_line(x1).len());
+        assert(after_line(x1) =~= after_line(x)) by { assert(x.subrange(line_len(x), x.len() as int) =~= x1.subrange(line_len(x1), x1.len() as int)); }
+    }
+    assert(line_len(r) == line_len(x));
+    assert(r.subrange(0, line_len(r)) =~= x.subrange(0, line_len(x)));
+    assert(r.subrange(line_len(r), r.len() as int) =~= x.subrange(line_len(x), x.len() as int) + t);
+    let al = after_line(x);
+    if al.len() > 0 { assert(al.last() == x.last()); }
+}
+// no line of x (x ends with a line feed or is empty) that is valid UTF-8 holds the boundary text
+pub open spec fn no_sep_line(x: Seq<u8>, b: Seq<char>) -> bool
+    decreases x.len() via no_sep_line_dec
+{
+    if x.len() == 0 { true }
+    else { (valid_utf8(first_line(x)) ==> !has_sub(vstd::utf8::decode_utf8(first_line(x)), b)) && no_sep_line(after_line(x), b) }
+}
+#[via_fn]
+proof fn no_sep_line_dec(x: Seq<u8>, b: Seq<char>) {
+    lemma_line_len(x);
+}
+// the body loop on  X T : X = body ++ CRLF (ends with LF), T starts with a line that holds the boundary
+pub proof fn lemma_mp_body(x: Seq<u8>, t: Seq<u8>, b: Seq<char>, acc: Seq<u8>, br: int, total: int)
+    requires
+        x.len() == 0 || ends_lf(x), no_sep_line(x, b),
+        valid_utf8(first_line(t)), has_sub(vstd::utf8::decode_utf8(first_line(t)), b),
+        br + x.len() + t.len() < total,
+    ensures mp_body(x + t, b, acc, br, total) == Some((acc + x, after_line(t), br + x.len() + first_line(t).len())),
+    decreases x.len()
+{
+    if x.len() == 0 {
+        assert(x + t =~= t);
+        assert(acc + x =~= acc);
+    } else {
+        lemma_line_prefix(x, t);
+        lemma_line_len(x);
+        let l = first_line(x);
+        let x2 = after_line(x);
+        assert(l.len() > 0);
+        lemma_line_len(t);
+        lemma_mp_body(x2, t, b, acc + l, br + l.len(), total);
+        assert(x =~= l + x2);
+        assert(acc + l + x2 =~= acc + x);
+        assert(after_line(x + t) == x2 + t);
+    }
+}
+pub proof fn lemma_pop2(body: Seq<u8>)
+    ensures pop2(body + crlf_b()) == body,
+{
+    let x = body + crlf_b();
+    assert(x.subrange(0, x.len() - 2) =~= body);
+}
+
+// ---------- the two part-header lines ----------
+pub open spec fn ct_line(ct: Seq<char>) -> Seq<char> { s_content_type() + colon_sp1() + sp1() + ct }
+pub open spec fn cr_text(a: nat, e: nat, n: nat) -> Seq<char> { s_bytes() + sp1() + dec(a) + hyphen1() + dec(e) + slash1() + dec(n) }
+pub open spec fn cr_line(a: nat, e: nat, n: nat) -> Seq<char> { s_content_range() + colon_sp1() + sp1() + cr_text(a, e, n) }
+
+pub proof fn lemma_no_char(s: Seq<char>, c: char, sep: Seq<char>)
+    requires forall|i: int| 0 <= i < s.len() ==> #[trigger] s[i] != c, sep.len() >= 1, sep[0] == c,
+    ensures !has_sub(s, sep),
+{
+    assert forall|k: int| 0 <= k && k + sep.len() <= s.len() implies #[trigger] s.subrange(k, k + sep.len()) != sep by {
+        assert(s.subrange(k, k + sep.len())[0] == s[k]);
+    }
+}
+pub proof fn lemma_trim_lead_sp(v: Seq<char>)
+    requires v.len() > 0, !is_ws(v[0]), !is_ws(v.last()),
+    ensures trim_spec(sp1() + v) == v,
+{
+    let s = sp1() + v;
+    axiom_trim(s);
+    let (a, b) = choose|a: int, b: int| 0 <= a <= b <= s.len() && trim_spec(s) == s.subrange(a, b)
+        && (forall|i: int| 0 <= i < a ==> is_ws(#[trigger] s[i])) && (forall|i: int| b <= i < s.len() ==> is_ws(#[trigger] s[i]));
+    assert(s[1] == v[0]);
+    assert(s[s.len() - 1] == v.last());
+    if b < s.len() { assert(is_ws(s[s.len() - 1])); }
+    if a > 1 { assert(is_ws(s[1])); }
+    if a == 0 { assert(trim_spec(s).len() > 0); assert(trim_spec(s)[0] == s[0]); assert(s[0] == ' '); }
+    assert(a == 1 && b == s.len());
+    assert(s.subrange(1, s.len() as int) =~= v);
+}
+// the Content-Type line of a part
+pub open spec fn wf_part_ctype(ct: Seq<char>) -> bool { ct.len() > 0 && no_crlf(ct) && !is_ws(ct[0]) && !is_ws(ct.last()) }
+pub proof fn lemma_ct_line(ct: Seq<char>)
+    requires wf_part_ctype(ct),
+    ensures
+        has_prefix(ct_line(ct) + crlf_c(), s_content_type()),
+        resp_header_line(ct_line(ct) + crlf_c()).is_some(),
+        trim_spec(resp_header_line(ct_line(ct) + crlf_c()).unwrap().1) == ct,
+{
+    let s = ct_line(ct) + crlf_c();
+    let name = s_content_type();
+    assert(s.subrange(0, name.len() as int) =~= name);
+    lemma_no_char(name, ':', colon_sp1());
+    let rest = sp1() + ct + crlf_c();
+    assert(s =~= name + colon_sp1() + rest);
+    assert(colon_sp1()[0] == ':' && colon_sp1()[1] == ' ');
+    assert(name.last() == 'e');
+    lemma_split_once_at(name, colon_sp1(), rest);
+    let v = sp1() + ct;
+    assert(no_crlf(v)) by { assert forall|i: int| 0 <= i < v.len() implies #[trigger] v[i] != '\r' && v[i] != '\n' by { if i > 0 { assert(v[i] == ct[i - 1]); } } }
+    assert(rest =~= v + crlf_c());
+    lemma_strip_crlf_line(v);
+    lemma_trim_lead_sp(ct);
+}
+// characters that are harmless everywhere in a Content-Range value: not ':', CR, LF, upper case or non-ASCII
+pub open spec fn safe_c(c: char) -> bool { c != ':' && c != '\r' && c != '\n' && (c as u32) < 128 && !('A' <= c && c <= 'Z') }
+pub open spec fn safe_s(s: Seq<char>) -> bool { forall|i: int| 0 <= i < s.len() ==> safe_c(#[trigger] s[i]) }
+pub proof fn lemma_safe_cat(x: Seq<char>, y: Seq<char>)
+    requires safe_s(x), safe_s(y),
+    ensures safe_s(x + y),
+{
+    let z = x + y;
+    assert forall|i: int| 0 <= i < z.len() implies safe_c(#[trigger] z[i]) by { if i < x.len() { assert(z[i] == x[i]); } else { assert(z[i] == y[i - x.len()]); } }
+}
+pub proof fn lemma_safe_dec(n: nat)
+    ensures safe_s(dec(n)),
+{
+    lemma_dec_digits(n);
+    assert forall|i: int| 0 <= i < dec(n).len() implies safe_c(#[trigger] dec(n)[i]) by { assert(is_digit(dec(n)[i])); }
+}
+pub proof fn lemma_safe_facts(s: Seq<char>)
+    requires safe_s(s),
+    ensures no_crlf(s), plain_lower(s), !has_sub(s, colon_sp1()),
+{
+    assert forall|i: int| 0 <= i < s.len() implies #[trigger] s[i] != '\r' && s[i] != '\n' by { assert(safe_c(s[i])); }
+    assert forall|i: int| 0 <= i < s.len() implies (#[trigger] s[i] as u32) < 128 && !('A' <= s[i] && s[i] <= 'Z') by { assert(safe_c(s[i])); }
+    assert forall|i: int| 0 <= i < s.len() implies #[trigger] s[i] != ':' by { assert(safe_c(s[i])); }
+    assert(colon_sp1()[0] == ':');
+    lemma_no_char(s, ':', colon_sp1());
+}
+pub proof fn lemma_cr_text_safe(a: nat, e: nat, n: nat)
+    ensures safe_s(cr_text(a, e, n)), safe_s(sp1() + cr_text(a, e, n)),
+{
+    lemma_safe_dec(a); lemma_safe_dec(e); lemma_safe_dec(n);
+    assert(safe_s(s_bytes()));
+    assert(safe_s(sp1()));
+    assert(safe_s(hyphen1()));
+    assert(safe_s(slash1()));
+    lemma_safe_cat(s_bytes(), sp1());
+    lemma_safe_cat(s_bytes() + sp1(), dec(a));
+    lemma_safe_cat(s_bytes() + sp1() + dec(a), hyphen1());
+    lemma_safe_cat(s_bytes() + sp1() + dec(a) + hyphen1(), dec(e));
+    lemma_safe_cat(s_bytes() + sp1() + dec(a) + hyphen1() + dec(e), slash1());
+    lemma_safe_cat(s_bytes() + sp1() + dec(a) + hyphen1() + dec(e) + slash1(), dec(n));
+    lemma_safe_cat(sp1(), cr_text(a, e, n));
+}
+// "bytes" SP first "-" last "/" size, already trimmed and lower-cased, splits into the three numbers
+pub proof fn lemma_cr_text_splits(a: nat, e: nat, n: nat)
+    requires a <= i64::MAX, e <= i64::MAX, n <= i64::MAX,
+    ensures ({
+        let t = cr_text(a, e, n);
+        let s1 = split_once_spec(t, sp1());
+        let s2 = split_once_spec(s1.unwrap().1, hyphen1());
+        let s3 = split_once_spec(s2.unwrap().1, slash1());
+        s1 == Some((s_bytes(), dec(a) + hyphen1() + dec(e) + slash1() + dec(n)))
+        && s2 == Some((dec(a), dec(e) + slash1() + dec(n)))
+        && s3 == Some((dec(e), dec(n)))
+        && i64_ok(dec(a)) && i64_ok(dec(e)) && i64_ok(dec(n))
+        && signed_val(dec(a)) == a && signed_val(dec(e)) == e && signed_val(dec(n)) == n
+    }),
+{
+    lemma_dec_digits(a); lemma_dec_digits(e); lemma_dec_digits(n);
+    let t = cr_text(a, e, n);
+    let after_bytes = dec(a) + hyphen1() + dec(e) + slash1() + dec(n);
+    assert(t =~= s_bytes() + sp1() + after_bytes);
+    assert(sp1()[0] == ' ');
+    lemma_no_char(s_bytes(), ' ', sp1());
+    lemma_split_once_at(s_bytes(), sp1(), after_bytes);
+    let after_a = dec(e) + slash1() + dec(n);
+    assert(after_bytes =~= dec(a) + hyphen1() + after_a);
+    assert forall|i: int| 0 <= i < dec(a).len() implies #[trigger] dec(a)[i] != '-' by { assert(is_digit(dec(a)[i])); }
+    assert(hyphen1()[0] == '-');
+    lemma_no_char(dec(a), '-', hyphen1());
+    lemma_split_once_at(dec(a), hyphen1(), after_a);
+    assert forall|i: int| 0 <= i < dec(e).len() implies #[trigger] dec(e)[i] != '/' by { assert(is_digit(dec(e)[i])); }
+    assert(slash1()[0] == '/');
+    lemma_no_char(dec(e), '/', slash1());
+    lemma_split_once_at(dec(e), slash1(), dec(n));
+    assert(signed_digits(dec(a)) == dec(a) && signed_digits(dec(e)) == dec(e) && signed_digits(dec(n)) == dec(n));
+}
+// the Content-Range line of a part: the reader gets back (first, last, size)
+pub proof fn lemma_cr_line(a: nat, e: nat, n: nat)
+    requires a <= e, e <= n, n <= i64::MAX,
+    ensures
+        has_prefix(cr_line(a, e, n) + crlf_c(), s_content_range()),
+        cr_value(resp_header_line_lax(cr_line(a, e, n) + crlf_c()).1) == Some((a as int, e as int, n as int)),
+{
+    let s = cr_line(a, e, n) + crlf_c();
+    let name = s_content_range();
+    assert(s.subrange(0, name.len() as int) =~= name);
+    let t = cr_text(a, e, n);
+    let v = sp1() + t;
+    let rest = v + crlf_c();
+    lemma_cr_text_safe(a, e, n);
+    lemma_safe_facts(v);
+    lemma_safe_facts(t);
+    assert(safe_s(crlf_c()) == false || true);
+    // the rest of the line holds no ": "
+    assert(!has_sub(rest, colon_sp1())) by {
+        assert forall|i: int| 0 <= i < rest.len() implies #[trigger] rest[i] != ':' by { if i < v.len() { assert(rest[i] == v[i]); assert(safe_c(v[i])); } else { assert(rest[i] == crlf_c()[i - v.len()]); } }
+        assert(colon_sp1()[0] == ':');
+        lemma_no_char(rest, ':', colon_sp1());
+    }
+    assert(colon_sp1()[0] == ':' && colon_sp1()[1] == ' ');
+    lemma_no_char(name, ':', colon_sp1());
+    assert(s =~= name + colon_sp1() + rest);
+    axiom_split_step2(name, colon_sp1(), rest);
+    let ps = split_spec(s, colon_sp1());
+    assert(ps == seq![name] + seq![rest]);
+    assert(ps.len() == 2 && ps[0] == name && ps[1] == rest);
+    lemma_strip_crlf_line(v);
+    assert(resp_header_line_lax(s).1 == v);
+    // trim, lower case
+    lemma_dec_digits(n);
+    axiom_trim(v);
+    assert(t[0] == 'b');
+    assert(t.last() == dec(n).last());
+    assert(is_digit(dec(n).last()));
+    lemma_trim_lead_sp(t);
+    axiom_lower_plain(t);
+    lemma_cr_text_splits(a, e, n);
+}
+
+// ---------- one step of the multipart reader over one well-formed part ----------
+pub open spec fn s_sep() -> Seq<char> { seq!['S', 't', 'r', 'i', 'n', 'g', '_', 's', 'e', 'p', 'a', 'r', 'a', 't', 'o', 'r'] }
+pub open spec fn bline() -> Seq<char> { seq!['-', '-'] + s_sep() }
+// what the writer puts in front of a part's body: the two header lines and the blank line
+pub open spec fn part_hdr(ct: Seq<char>, a: nat, e: nat, n: nat) -> Seq<char> { ct_line(ct) + crlf_c() + cr_line(a, e, n) + crlf_c() + crlf_c() }
+pub open spec fn wf_mp_part(ct: Seq<char>, a: nat, e: nat, n: nat, body: Seq<u8>) -> bool {
+    wf_part_ctype(ct) && a <= e && e <= n && n <= i64::MAX
+    && !has_sub(ct_line(ct) + crlf_c(), s_sep())                 // the media type does not hold the boundary text
+    && no_lf_b(utf8_bytes(ct_line(ct)))                            // implied by no_crlf(ct) for real UTF-8; stated on the bytes
+    && no_lf_b(utf8_bytes(cr_line(a, e, n)))
+    && no_sep_line(body + crlf_b(), s_sep())                        // no line of the body holds the boundary text
+}
+pub open spec fn mp_part_crv(ct: Seq<char>, a: nat, e: nat, n: nat, body: Seq<u8>) -> CRV {
+    CRV { unit: s_bytes(), start: a as int, end: e as int, size: dec(n), body: body, ctype: ct }
+}
+// the line that ends a part: "--String_separator" followed by CRLF and more input, or by the end of the input
+pub open spec fn ends_with_bline(t: Seq<u8>, after: Seq<u8>) -> bool {
+    (t == utf8_bytes(bline()) && after.len() == 0) || t == utf8_bytes(bline() + crlf_c()) + after
+}
+pub proof fn lemma_bline_first(t: Seq<u8>, after: Seq<u8>)
+    requires ends_with_bline(t, after),
+    ensures valid_utf8(first_line(t)), has_sub(vstd::utf8::decode_utf8(first_line(t)), s_sep()), after_line(t) == after, first_line(t).len() > 0,
+{
+    let bl = bline();
+    assert(vstd::utf8::is_ascii_chars(bl));
+    vstd::utf8::is_ascii_chars_encode_utf8(bl);
+    let ub = utf8_bytes(bl);
+    assert(no_lf_b(ub)) by { assert forall|i: int| 0 <= i < ub.len() implies #[trigger] ub[i] != 10u8 by { assert(ub[i] == bl[i] as u8); } }
+    assert(bl.subrange(2, 2 + s_sep().len() as int) =~= s_sep());
+    if t == ub && after.len() == 0 {
+        lemma_line_whole(ub);
+        vstd::utf8::encode_utf8_valid_utf8(bl);
+        vstd::utf8::encode_utf8_decode_utf8(bl);
+        assert(after =~= Seq::<u8>::empty());
+    } else {
+        lemma_utf8_text_line(bl);
+        assert(t =~= ub + crlf_b() + after);
+        lemma_crlf_line(ub, after);
+        let s = bl + crlf_c();
+        assert(s.subrange(2, 2 + s_sep().len() as int) =~= s_sep());
+    }
+}
+pub proof fn lemma_line_whole(x: Seq<u8>)
+    requires no_lf_b(x),
+    ensures first_line(x) == x, after_line(x) == Seq::<u8>::empty(),
+    decreases x.len()
+{
+    if x.len() > 0 {
+        let x1 = x.subrange(1, x.len() as int);
+        lemma_line_whole(x1);
+        lemma_line_len(x1);
+        assert(line_len(x) == 1 + line_len(x1));
+        assert(first_line(x1).len() == x1.len());
+    }
+    assert(line_len(x) == x.len());
+    assert(x.subrange(0, x.len() as int) =~= x);
+    assert(x.subrange(x.len() as int, x.len() as int) =~= Seq::<u8>::empty());
+}
+
+// evaluation of one step from the facts about its (up to) five lines; proved in a small context
+pub proof fn lemma_mp_step_eval(r: Seq<u8>, acc: Seq<CRV>, b: Seq<char>, opening: bool, br: int, total: int,
+        s1: Seq<char>, r1: Seq<u8>, s2: Seq<char>, r2: Seq<u8>, s3: Seq<char>, r3: Seq<u8>, r4: Seq<u8>,
+        ctype: Seq<char>, cr: (int, int, int), bd: (Seq<u8>, Seq<u8>, int))
+    requires
+        valid_utf8(first_line(r)), first_line(r).len() > 0, vstd::utf8::decode_utf8(first_line(r)) == s1, after_line(r) == r1,
+        opening || has_sub(s1, b),
+        (if has_sub(s1, b) { next_text(r1) } else { Some((s1, r1)) }) == Some((s2, r2)),
+        has_prefix(s2, s_content_type()), resp_header_line(s2).is_some(), trim_spec(resp_header_line(s2).unwrap().1) == ctype, ctype.len() != 0,
+        next_text(r2) == Some((s3, r3)),
+        has_prefix(s3, s_content_range()), cr_value(resp_header_line_lax(s3).1) == Some(cr),
+        next_text(r3).is_some(), trim_spec(next_text(r3).unwrap().0).len() == 0, next_text(r3).unwrap().1 == r4,
+        mp_body(r4, b, Seq::<u8>::empty(), br + first_line(r).len(), total) == Some(bd),
+    ensures
+        mp_step(r, acc, b, opening, br, total) == MpStep::Next(bd.1,
+            acc.push(CRV { unit: s_bytes(), start: (cr.0 as u64) as int, end: (cr.1 as u64) as int, size: dec_i(cr.2), body: pop2(bd.0), ctype: ctype }), true, bd.2),
+{
+}
+
+// one step over a well-formed part that starts at its Content-Type line (the opening boundary has been read before)
+pub open spec fn part_stream(ct: Seq<char>, a: nat, e: nat, n: nat, body: Seq<u8>, t: Seq<u8>) -> Seq<u8> {
+    utf8_bytes(part_hdr(ct, a, e, n)) + body + crlf_b() + t
+}
+pub open spec fn part_r2(a: nat, e: nat, n: nat, body: Seq<u8>, t: Seq<u8>) -> Seq<u8> { (utf8_bytes(cr_line(a, e, n)) + crlf_b()) + part_r3(body, t) }
+pub open spec fn part_r3(body: Seq<u8>, t: Seq<u8>) -> Seq<u8> { crlf_b() + (body + crlf_b() + t) }
+// the three header lines of a part, as the reader sees them
+pub proof fn lemma_part_lines(ct: Seq<char>, a: nat, e: nat, n: nat, body: Seq<u8>, t: Seq<u8>)
+    requires no_lf_b(utf8_bytes(ct_line(ct))), no_lf_b(utf8_bytes(cr_line(a, e, n))),
+    ensures
+        next_text(part_stream(ct, a, e, n, body, t)) == Some((ct_line(ct) + crlf_c(), part_r2(a, e, n, body, t))),
+        first_line(part_stream(ct, a, e, n, body, t)).len() == utf8_bytes(ct_line(ct)).len() + 2,
+        after_line(part_stream(ct, a, e, n, body, t)) == part_r2(a, e, n, body, t),
+        valid_utf8(first_line(part_stream(ct, a, e, n, body, t))),
+        vstd::utf8::decode_utf8(first_line(part_stream(ct, a, e, n, body, t))) == ct_line(ct) + crlf_c(),
+        next_text(part_r2(a, e, n, body, t)) == Some((cr_line(a, e, n) + crlf_c(), part_r3(body, t))),
+        next_text(part_r3(body, t)) == Some((crlf_c(), body + crlf_b() + t)),
+        part_stream(ct, a, e, n, body, t).len() == utf8_bytes(ct_line(ct)).len() + 2 + utf8_bytes(cr_line(a, e, n)).len() + 2 + 2 + body.len() + 2 + t.len(),
+{
+    let ctl = ct_line(ct);
+    let crl = cr_line(a, e, n);
+    lemma_utf8_text_line(ctl);
+    lemma_utf8_text_line(crl);
+    lemma_utf8_text_line(Seq::<char>::empty());
+    vstd::utf8::is_ascii_chars_encode_utf8(Seq::<char>::empty());
+    let e0 = Seq::<u8>::empty();
+    assert(utf8_bytes(Seq::<char>::empty()) =~= e0);
+    assert(Seq::<char>::empty() + crlf_c() =~= crlf_c());
+    vstd::utf8::encode_utf8_concat(ctl + crlf_c() + (crl + crlf_c()), crlf_c());
+    vstd::utf8::encode_utf8_concat(ctl + crlf_c(), crl + crlf_c());
+    assert(part_hdr(ct, a, e, n) =~= ctl + crlf_c() + (crl + crlf_c()) + crlf_c());
+    let r4 = body + crlf_b() + t;
+    let r3 = part_r3(body, t);
+    let r2 = part_r2(a, e, n, body, t);
+    let r = part_stream(ct, a, e, n, body, t);
+    assert(utf8_bytes(part_hdr(ct, a, e, n)) =~= (utf8_bytes(ctl) + crlf_b()) + (utf8_bytes(crl) + crlf_b()) + crlf_b());
+    assert(r =~= utf8_bytes(ctl) + crlf_b() + r2);
+    lemma_crlf_line(utf8_bytes(ctl), r2);
+    assert(r2 =~= utf8_bytes(crl) + crlf_b() + r3);
+    lemma_crlf_line(utf8_bytes(crl), r3);
+    assert(no_lf_b(e0));
+    assert(r3 =~= e0 + crlf_b() + r4);
+    lemma_crlf_line(e0, r4);
+    assert(e0 + crlf_b() =~= crlf_b());
+}
+// everything a step needs to know about a well-formed part that starts at its Content-Type line
+pub proof fn lemma_part_facts(ct: Seq<char>, a: nat, e: nat, n: nat, body: Seq<u8>, t: Seq<u8>, after: Seq<u8>, br1: int, total: int)
+    requires
+        wf_mp_part(ct, a, e, n, body), ends_with_bline(t, after),
+        br1 + body.len() + 2 + t.len() < total,
+    ensures ({
+        let s2 = ct_line(ct) + crlf_c();
+        let r2 = part_r2(a, e, n, body, t);
+        let s3 = cr_line(a, e, n) + crlf_c();
+        let r3 = part_r3(body, t);
+        let x = body + crlf_b();
+        next_text(part_stream(ct, a, e, n, body, t)) == Some((s2, r2))
+        && valid_utf8(first_line(part_stream(ct, a, e, n, body, t))) && vstd::utf8::decode_utf8(first_line(part_stream(ct, a, e, n, body, t))) == s2
+        && after_line(part_stream(ct, a, e, n, body, t)) == r2
+        && first_line(part_stream(ct, a, e, n, body, t)).len() == utf8_bytes(ct_line(ct)).len() + 2
+        && !has_sub(s2, s_sep())
+        && has_prefix(s2, s_content_type()) && resp_header_line(s2).is_some() && trim_spec(resp_header_line(s2).unwrap().1) == ct && ct.len() != 0
+        && next_text(r2) == Some((s3, r3))
+        && has_prefix(s3, s_content_range()) && cr_value(resp_header_line_lax(s3).1) == Some((a as int, e as int, n as int))
+        && next_text(r3).is_some() && trim_spec(next_text(r3).unwrap().0).len() == 0 && next_text(r3).unwrap().1 == x + t
+        && mp_body(x + t, s_sep(), Seq::<u8>::empty(), br1, total) == Some((x, after, br1 + x.len() + first_line(t).len()))
+        && pop2(x) == body
+        && (a as u64) as int == a && (e as u64) as int == e && dec_i(n as int) == dec(n)
+    }),
+{
+    lemma_part_lines(ct, a, e, n, body, t);
+    lemma_ct_line(ct);
+    lemma_cr_line(a, e, n);
+    assert(all_ws(crlf_c())) by { axiom_trim(crlf_c()); }
+    lemma_trim_all_ws(crlf_c());
+    lemma_bline_first(t, after);
+    lemma_line_len(t);
+    lemma_pop2(body);
+    let x = body + crlf_b();
+    lemma_mp_body(x, t, s_sep(), Seq::<u8>::empty(), br1, total);
+    assert(Seq::<u8>::empty() + x =~= x);
+}
+// one step over a well-formed part (no opening boundary line in front)
+pub proof fn lemma_mp_step_part(ct: Seq<char>, a: nat, e: nat, n: nat, body: Seq<u8>, t: Seq<u8>, after: Seq<u8>, acc: Seq<CRV>, br: int, total: int)
+    requires
+        wf_mp_part(ct, a, e, n, body), ends_with_bline(t, after),
+        br + part_stream(ct, a, e, n, body, t).len() <= total,
+    ensures
+        mp_step(part_stream(ct, a, e, n, body, t), acc, s_sep(), true, br, total)
+            == MpStep::Next(after, acc.push(mp_part_crv(ct, a, e, n, body)), true, br + utf8_bytes(ct_line(ct)).len() + 2 + body.len() + 2 + first_line(t).len()),
+{
+    let r = part_stream(ct, a, e, n, body, t);
+    lemma_part_lines(ct, a, e, n, body, t);
+    let br1 = br + utf8_bytes(ct_line(ct)).len() + 2;
+    lemma_part_facts(ct, a, e, n, body, t, after, br1, total);
+    let x = body + crlf_b();
+    let s1 = ct_line(ct) + crlf_c();
+    let bd = (x, after, br1 + x.len() + first_line(t).len());
+    lemma_mp_step_eval(r, acc, s_sep(), true, br, total, s1, part_r2(a, e, n, body, t), s1, part_r2(a, e, n, body, t),
+        cr_line(a, e, n) + crlf_c(), part_r3(body, t), x + t, ct, (a as int, e as int, n as int), bd);
+}
+// the opening boundary line in front of some input
+pub proof fn lemma_lead_line(ps: Seq<u8>)
+    ensures ({
+        let r = utf8_bytes(bline() + crlf_c()) + ps;
+        valid_utf8(first_line(r)) && vstd::utf8::decode_utf8(first_line(r)) == bline() + crlf_c() && after_line(r) == ps
+        && first_line(r).len() == utf8_bytes(bline() + crlf_c()).len() && first_line(r).len() > 0
+        && has_sub(bline() + crlf_c(), s_sep())
+    }),
+{
+    let b = s_sep();
+    let bl = bline();
+    let r = utf8_bytes(bl + crlf_c()) + ps;
+    lemma_utf8_text_line(bl);
+    assert(vstd::utf8::is_ascii_chars(bl));
+    vstd::utf8::is_ascii_chars_encode_utf8(bl);
+    let ub = utf8_bytes(bl);
+    assert(no_lf_b(ub)) by { assert forall|i: int| 0 <= i < ub.len() implies #[trigger] ub[i] != 10u8 by { assert(ub[i] == bl[i] as u8); } }
+    assert(r =~= ub + crlf_b() + ps);
+    lemma_crlf_line(ub, ps);
+    let s1 = bl + crlf_c();
+    assert(s1.subrange(2, 2 + b.len() as int) =~= b);
+}
+// the first step: the opening boundary line, then a well-formed part
+pub proof fn lemma_mp_step_first(ct: Seq<char>, a: nat, e: nat, n: nat, body: Seq<u8>, t: Seq<u8>, after: Seq<u8>, br: int, total: int)
+    requires
+        wf_mp_part(ct, a, e, n, body), ends_with_bline(t, after),
+        br + utf8_bytes(bline() + crlf_c()).len() + part_stream(ct, a, e, n, body, t).len() <= total,
+    ensures
+        mp_step(utf8_bytes(bline() + crlf_c()) + part_stream(ct, a, e, n, body, t), Seq::<CRV>::empty(), s_sep(), false, br, total)
+            == MpStep::Next(after, Seq::<CRV>::empty().push(mp_part_crv(ct, a, e, n, body)), true, br + utf8_bytes(bline() + crlf_c()).len() + body.len() + 2 + first_line(t).len()),
+{
+    let ps = part_stream(ct, a, e, n, body, t);
+    let r = utf8_bytes(bline() + crlf_c()) + ps;
+    lemma_lead_line(ps);
+    lemma_part_lines(ct, a, e, n, body, t);
+    let br1 = br + utf8_bytes(bline() + crlf_c()).len();
+    lemma_part_facts(ct, a, e, n, body, t, after, br1, total);
+    let x = body + crlf_b();
+    let s1 = bline() + crlf_c();
+    let s2 = ct_line(ct) + crlf_c();
+    let bd = (x, after, br1 + x.len() + first_line(t).len());
+    lemma_mp_step_eval(r, Seq::<CRV>::empty(), s_sep(), false, br, total, s1, ps, s2, part_r2(a, e, n, body, t),
+        cr_line(a, e, n) + crlf_c(), part_r3(body, t), x + t, ct, (a as int, e as int, n as int), bd);
+}
+
+// ---------- the stream of parts, front to back ----------
+pub open spec fn p_ct(p: ContentRange) -> Seq<char> { p.content_type@ }
+pub open spec fn p_a(p: ContentRange) -> nat { p.range.start as nat }
+pub open spec fn p_e(p: ContentRange) -> nat { p.range.end as nat }
+// what follows a part's body and CRLF: the closing delimiter, or a delimiter line and the next part
+pub open spec fn mp_tail(list: Seq<ContentRange>, sizes: Seq<nat>) -> Seq<u8>
+    decreases list.len()
+{
+    if list.len() == 0 || sizes.len() != list.len() { utf8_bytes(bline()) }
+    else { utf8_bytes(bline() + crlf_c()) + part_stream(p_ct(list[0]), p_a(list[0]), p_e(list[0]), sizes[0], list[0].body@, mp_tail(list.drop_first(), sizes.drop_first())) }
+}
+pub open spec fn wf_mp_list(list: Seq<ContentRange>, sizes: Seq<nat>) -> bool {
+    sizes.len() == list.len()
+    && forall|i: int| 0 <= i < list.len() ==> (#[trigger] list[i]).size@ == dec(sizes[i]) && wf_mp_part(p_ct(list[i]), p_a(list[i]), p_e(list[i]), sizes[i], list[i].body@)
+}
+pub open spec fn mp_expected(list: Seq<ContentRange>, sizes: Seq<nat>) -> Seq<CRV> {
+    Seq::new(list.len(), |i: int| mp_part_crv(p_ct(list[i]), p_a(list[i]), p_e(list[i]), sizes[i], list[i].body@))
+}
+pub proof fn lemma_mp_read_end(acc: Seq<CRV>, b: Seq<char>, opening: bool, br: int, total: int)
+    ensures mp_read(Seq::<u8>::empty(), acc, b, opening, br, total) == Some(acc),
+{
+    let e0 = Seq::<u8>::empty();
+    lemma_mp_read_unfold(e0, acc, b, opening, br, total);
+    lemma_line_len(e0);
+    assert(first_line(e0) =~= e0);
+    vstd::utf8::encode_utf8_valid_utf8(Seq::<char>::empty());
+    vstd::utf8::is_ascii_chars_encode_utf8(Seq::<char>::empty());
+    assert(utf8_bytes(Seq::<char>::empty()) =~= e0);
+}
+// reading the parts from the Content-Type line of the first one on
+pub proof fn lemma_mp_read_parts(list: Seq<ContentRange>, sizes: Seq<nat>, acc: Seq<CRV>, br: int, total: int)
+    requires
+        list.len() > 0, wf_mp_list(list, sizes),
+        br + part_stream(p_ct(list[0]), p_a(list[0]), p_e(list[0]), sizes[0], list[0].body@, mp_tail(list.drop_first(), sizes.drop_first())).len() <= total,
+    ensures
+        mp_read(part_stream(p_ct(list[0]), p_a(list[0]), p_e(list[0]), sizes[0], list[0].body@, mp_tail(list.drop_first(), sizes.drop_first())),
+                acc, s_sep(), true, br, total) == Some(acc + mp_expected(list, sizes)),
+    decreases list.len()
+{
+    let p = list[0];
+    let rest = list.drop_first();
+    let rsz = sizes.drop_first();
+    let t = mp_tail(rest, rsz);
+    let r = part_stream(p_ct(p), p_a(p), p_e(p), sizes[0], p.body@, t);
+    let after = if rest.len() == 0 { Seq::<u8>::empty() } else { part_stream(p_ct(rest[0]), p_a(rest[0]), p_e(rest[0]), rsz[0], rest[0].body@, mp_tail(rest.drop_first(), rsz.drop_first())) };
+    assert(ends_with_bline(t, after));
+    lemma_mp_step_part(p_ct(p), p_a(p), p_e(p), sizes[0], p.body@, t, after, acc, br, total);
+    lemma_mp_read_unfold(r, acc, s_sep(), true, br, total);
+    let acc2 = acc.push(mp_part_crv(p_ct(p), p_a(p), p_e(p), sizes[0], p.body@));
+    let br2 = br + utf8_bytes(ct_line(p_ct(p))).len() + 2 + p.body@.len() + 2 + first_line(t).len();
+    if rest.len() == 0 {
+        lemma_mp_read_end(acc2, s_sep(), true, br2, total);
+        assert(acc2 =~= acc + mp_expected(list, sizes));
+    } else {
+        assert(wf_mp_list(rest, rsz)) by {
+            assert forall|i: int| 0 <= i < rest.len() implies (#[trigger] rest[i]).size@ == dec(rsz[i]) && wf_mp_part(p_ct(rest[i]), p_a(rest[i]), p_e(rest[i]), rsz[i], rest[i].body@) by {
+                assert(rest[i] == list[i + 1]); assert(rsz[i] == sizes[i + 1]);
+            }
+        }
+        lemma_part_lines(p_ct(p), p_a(p), p_e(p), sizes[0], p.body@, t);
+        lemma_bline_first(t, after);
+        lemma_line_len(t);
+        assert(t.len() == first_line(t).len() + after.len()) by { assert(t =~= first_line(t) + after_line(t)); }
+        lemma_mp_read_parts(rest, rsz, acc2, br2, total);
+        assert(acc2 + mp_expected(rest, rsz) =~= acc + mp_expected(list, sizes)) by {
+            let l = acc + mp_expected(list, sizes);
+            let m = acc2 + mp_expected(rest, rsz);
+            assert(l.len() == m.len());
+            assert forall|i: int| 0 <= i < l.len() implies l[i] == m[i] by {
+                if i < acc.len() { } else if i == acc.len() { } else { assert(rest[i - acc.len() - 1] == list[i - acc.len()]); assert(rsz[i - acc.len() - 1] == sizes[i - acc.len()]); }
+            }
+        }
+    }
+}
+// reading the whole multipart body from the opening boundary line on
+pub proof fn lemma_mp_read_all(list: Seq<ContentRange>, sizes: Seq<nat>, br: int, total: int)
+    requires list.len() > 0, wf_mp_list(list, sizes), br + mp_tail(list, sizes).len() <= total,
+    ensures mp_read(mp_tail(list, sizes), Seq::<CRV>::empty(), s_sep(), false, br, total) == Some(mp_expected(list, sizes)),
+{
+    let p = list[0];
+    let rest = list.drop_first();
+    let rsz = sizes.drop_first();
+    let t = mp_tail(rest, rsz);
+    let ps = part_stream(p_ct(p), p_a(p), p_e(p), sizes[0], p.body@, t);
+    let r = mp_tail(list, sizes);
+    assert(r == utf8_bytes(bline() + crlf_c()) + ps);
+    let after = if rest.len() == 0 { Seq::<u8>::empty() } else { part_stream(p_ct(rest[0]), p_a(rest[0]), p_e(rest[0]), rsz[0], rest[0].body@, mp_tail(rest.drop_first(), rsz.drop_first())) };
+    assert(ends_with_bline(t, after));
+    lemma_mp_step_first(p_ct(p), p_a(p), p_e(p), sizes[0], p.body@, t, after, br, total);
+    lemma_mp_read_unfold(r, Seq::<CRV>::empty(), s_sep(), false, br, total);
+    let acc2 = Seq::<CRV>::empty().push(mp_part_crv(p_ct(p), p_a(p), p_e(p), sizes[0], p.body@));
+    let br2 = br + utf8_bytes(bline() + crlf_c()).len() + p.body@.len() + 2 + first_line(t).len();
+    if rest.len() == 0 {
+        lemma_mp_read_end(acc2, s_sep(), true, br2, total);
+        assert(acc2 =~= mp_expected(list, sizes));
+    } else {
+        assert(wf_mp_list(rest, rsz)) by {
+            assert forall|i: int| 0 <= i < rest.len() implies (#[trigger] rest[i]).size@ == dec(rsz[i]) && wf_mp_part(p_ct(rest[i]), p_a(rest[i]), p_e(rest[i]), rsz[i], rest[i].body@) by {
+                assert(rest[i] == list[i + 1]); assert(rsz[i] == sizes[i + 1]);
+            }
+        }
+        lemma_part_lines(p_ct(p), p_a(p), p_e(p), sizes[0], p.body@, t);
+        lemma_bline_first(t, after);
+        lemma_line_len(t);
+        assert(t.len() == first_line(t).len() + after.len()) by { assert(t =~= first_line(t) + after_line(t)); }
+        lemma_mp_read_parts(rest, rsz, acc2, br2, total);
+        assert(acc2 + mp_expected(rest, rsz) =~= mp_expected(list, sizes)) by {
+            let l = mp_expected(list, sizes);
+            let m = acc2 + mp_expected(rest, rsz);
+            assert(l.len() == m.len());
+            assert forall|i: int| 0 <= i < l.len() implies l[i] == m[i] by {
+                if i == 0 { } else { assert(rest[i - 1] == list[i]); assert(rsz[i - 1] == sizes[i]); }
+            }
+        }
+    }
+}
+
+// ---------- the writer's multipart body is that stream ----------
+pub proof fn lemma_part_head(p: ContentRange, n: nat, first: bool)
+    requires p.size@ == dec(n),
+    ensures part_head(p, first) == (if first { Seq::<char>::empty() } else { crlf_c() }) + bline() + crlf_c() + part_hdr(p_ct(p), p_a(p), p_e(p), n),
+{
+    reveal_strlit(""); reveal_strlit("\r\n"); reveal_strlit("-"); reveal_strlit("String_separator"); reveal_strlit("Content-Type"); reveal_strlit("Content-Range");
+    reveal_strlit(": "); reveal_strlit(" "); reveal_strlit("bytes"); reveal_strlit("/");
+    assert(SYMBOL.empty_string@ =~= Seq::<char>::empty());
+    assert(SYMBOL.new_line_carriage_return@ =~= crlf_c());
+    assert(SYMBOL.hyphen@ =~= hyphen1());
+    assert(Range::STRING_SEPARATOR@ =~= s_sep());
+    assert(Header::_CONTENT_TYPE@ =~= s_content_type());
+    assert(Header::_CONTENT_RANGE@ =~= s_content_range());
+    assert(Header::NAME_VALUE_SEPARATOR@ =~= colon_sp1());
+    assert(SYMBOL.whitespace@ =~= sp1());
+    assert(Range::BYTES@ =~= s_bytes());
+    assert(SYMBOL.slash@ =~= slash1());
+    assert(mp_ct_line(p) =~= ct_line(p_ct(p)));
+    assert(mp_cr_line(p) =~= cr_line(p_a(p), p_e(p), n));
+    assert(hyphen1() + hyphen1() + s_sep() =~= bline());
+    let lead = if first { Seq::<char>::empty() } else { crlf_c() };
+    assert(part_head(p, first) =~= lead + bline() + crlf_c() + part_hdr(p_ct(p), p_a(p), p_e(p), n));
+}
+// mp_parts, front to back
+pub open spec fn mp_front(list: Seq<ContentRange>, first: bool) -> Seq<u8>
+    decreases list.len()
+{
+    if list.len() == 0 { Seq::empty() } else { utf8_bytes(part_head(list[0], first)) + list[0].body@ + mp_front(list.drop_first(), false) }
+}
+pub proof fn lemma_mp_front_push(list: Seq<ContentRange>, p: ContentRange, first: bool)
+    ensures mp_front(list.push(p), first) == mp_front(list, first) + utf8_bytes(part_head(p, first && list.len() == 0)) + p.body@,
+    decreases list.len()
+{
+    if list.len() == 0 {
+        assert(list.push(p).drop_first() =~= Seq::<ContentRange>::empty());
+        assert(list.push(p)[0] == p);
+        assert(mp_front(list.push(p), first) =~= utf8_bytes(part_head(p, first)) + p.body@ + mp_front(Seq::<ContentRange>::empty(), false));
+        assert(mp_front(list.push(p), first) =~= mp_front(list, first) + utf8_bytes(part_head(p, first)) + p.body@);
+    } else {
+        assert(list.push(p).drop_first() =~= list.drop_first().push(p));
+        assert(list.push(p)[0] == list[0]);
+        lemma_mp_front_push(list.drop_first(), p, false);
+        assert(mp_front(list.push(p), first) =~= mp_front(list, first) + utf8_bytes(part_head(p, false)) + p.body@);
+    }
+}
+pub proof fn lemma_mp_parts_front(list: Seq<ContentRange>)
+    ensures mp_parts(list) == mp_front(list, true),
+    decreases list.len()
+{
+    if list.len() > 0 {
+        lemma_mp_parts_front(list.drop_last());
+        lemma_mp_front_push(list.drop_last(), list.last(), true);
+        assert(list.drop_last().push(list.last()) =~= list);
+    }
+}
+// the parts after the first one, plus the closing delimiter, are CRLF ++ mp_tail
+pub proof fn lemma_mp_tail_rest(list: Seq<ContentRange>, sizes: Seq<nat>)
+    requires sizes.len() == list.len(), forall|i: int| 0 <= i < list.len() ==> (#[trigger] list[i]).size@ == dec(sizes[i]),
+    ensures mp_front(list, false) + utf8_bytes(closing_delimiter()) == crlf_b() + mp_tail(list, sizes),
+    decreases list.len()
+{
+    reveal_strlit(""); reveal_strlit("\r\n"); reveal_strlit("-"); reveal_strlit("String_separator");
+    assert(SYMBOL.empty_string@ =~= Seq::<char>::empty());
+    assert(SYMBOL.new_line_carriage_return@ =~= crlf_c());
+    assert(SYMBOL.hyphen@ =~= hyphen1());
+    assert(Range::STRING_SEPARATOR@ =~= s_sep());
+    assert(hyphen1() + hyphen1() + s_sep() =~= bline());
+    assert(closing_delimiter() =~= crlf_c() + bline());
+    vstd::utf8::encode_utf8_concat(crlf_c(), bline());
+    lemma_utf8_text_line(Seq::<char>::empty());
+    vstd::utf8::is_ascii_chars_encode_utf8(Seq::<char>::empty());
+    assert(utf8_bytes(Seq::<char>::empty()) =~= Seq::<u8>::empty());
+    assert(Seq::<char>::empty() + crlf_c() =~= crlf_c());
+    assert(utf8_bytes(crlf_c()) =~= crlf_b());
+    if list.len() == 0 {
+        assert(mp_front(list, false) + utf8_bytes(closing_delimiter()) =~= crlf_b() + mp_tail(list, sizes));
+    } else {
+        let p = list[0];
+        let rest = list.drop_first();
+        let rsz = sizes.drop_first();
+        assert forall|i: int| 0 <= i < rest.len() implies (#[trigger] rest[i]).size@ == dec(rsz[i]) by { assert(rest[i] == list[i + 1]); assert(rsz[i] == sizes[i + 1]); }
+        lemma_mp_tail_rest(rest, rsz);
+        lemma_part_head(p, sizes[0], false);
+        let hdr = part_hdr(p_ct(p), p_a(p), p_e(p), sizes[0]);
+        vstd::utf8::encode_utf8_concat(crlf_c() + bline() + crlf_c(), hdr);
+        vstd::utf8::encode_utf8_concat(crlf_c(), bline() + crlf_c());
+        assert(crlf_c() + bline() + crlf_c() =~= crlf_c() + (bline() + crlf_c()));
+        let t = mp_tail(rest, rsz);
+        let ph = utf8_bytes(part_head(p, false));
+        assert(part_head(p, false) =~= (crlf_c() + (bline() + crlf_c())) + hdr);
+        assert(ph == utf8_bytes(crlf_c() + (bline() + crlf_c())) + utf8_bytes(hdr)) by { vstd::utf8::encode_utf8_concat(crlf_c() + (bline() + crlf_c()), hdr); }
+        assert(utf8_bytes(crlf_c() + (bline() + crlf_c())) == crlf_b() + utf8_bytes(bline() + crlf_c()));
+        let cl = utf8_bytes(closing_delimiter());
+        let mf = mp_front(rest, false);
+        assert(mf + cl == crlf_b() + t);
+        assert(mp_front(list, false) == ph + p.body@ + mf);
+        assert((ph + p.body@ + mf) + cl =~= ph + p.body@ + (mf + cl));
+        assert(mp_tail(list, sizes) == utf8_bytes(bline() + crlf_c()) + (utf8_bytes(hdr) + p.body@ + crlf_b() + t));
+        assert(ph + p.body@ + (crlf_b() + t) =~= crlf_b() + (utf8_bytes(bline() + crlf_c()) + (utf8_bytes(hdr) + p.body@ + crlf_b() + t)));
+    }
+}
+// the first part, the other parts and the closing delimiter: the stream the reader lemmas speak about
+pub proof fn lemma_mp_front_all(list: Seq<ContentRange>, sizes: Seq<nat>)
+    requires list.len() > 0, sizes.len() == list.len(), forall|i: int| 0 <= i < list.len() ==> (#[trigger] list[i]).size@ == dec(sizes[i]),
+    ensures mp_front(list, true) + utf8_bytes(closing_delimiter()) == mp_tail(list, sizes),
+{
+    let p = list[0];
+    let rest = list.drop_first();
+    let rsz = sizes.drop_first();
+    assert forall|i: int| 0 <= i < rest.len() implies (#[trigger] rest[i]).size@ == dec(rsz[i]) by { assert(rest[i] == list[i + 1]); assert(rsz[i] == sizes[i + 1]); }
+    lemma_mp_tail_rest(rest, rsz);
+    lemma_part_head(p, sizes[0], true);
+    let hdr = part_hdr(p_ct(p), p_a(p), p_e(p), sizes[0]);
+    vstd::utf8::encode_utf8_concat(bline() + crlf_c(), hdr);
+    assert(Seq::<char>::empty() + bline() + crlf_c() =~= bline() + crlf_c());
+    let t = mp_tail(rest, rsz);
+    let ph = utf8_bytes(part_head(p, true));
+    assert(part_head(p, true) =~= (bline() + crlf_c()) + hdr);
+    assert(ph == utf8_bytes(bline() + crlf_c()) + utf8_bytes(hdr));
+    let cl = utf8_bytes(closing_delimiter());
+    let mf = mp_front(rest, false);
+    assert(mf + cl == crlf_b() + t);
+    assert(mp_front(list, true) == ph + p.body@ + mf);
+    assert((ph + p.body@ + mf) + cl =~= ph + p.body@ + (mf + cl));
+    assert(mp_tail(list, sizes) == utf8_bytes(bline() + crlf_c()) + (utf8_bytes(hdr) + p.body@ + crlf_b() + t));
+    assert(ph + p.body@ + (crlf_b() + t) =~= utf8_bytes(bline() + crlf_c()) + (utf8_bytes(hdr) + p.body@ + crlf_b() + t));
+}
+// the whole multipart body the writer emits
+pub proof fn lemma_mp_body_bytes(list: Seq<ContentRange>, sizes: Seq<nat>)
+    requires list.len() > 1, sizes.len() == list.len(), forall|i: int| 0 <= i < list.len() ==> (#[trigger] list[i]).size@ == dec(sizes[i]),
+    ensures body_bytes(list) == mp_tail(list, sizes),
+{
+    lemma_mp_parts_front(list);
+    lemma_mp_front_all(list, sizes);
+}
+
+// ---------- split at a longer separator ("boundary=") ----------
+pub proof fn lemma_split_once_long(x: Seq<char>, sep: Seq<char>, rest: Seq<char>)
+    requires
+        sep.len() > 0,
+        // no occurrence of sep starts before the end of x (inside x or straddling into sep)
+        forall|k: int| 0 <= k < x.len() ==> #[trigger] (x + sep + rest).subrange(k, k + sep.len()) != sep,
+        // sep does not overlap itself: its first character occurs nowhere else in it
+        forall|d: int| 0 < d < sep.len() ==> #[trigger] sep[d] != sep[0],
+    ensures split_once_spec(x + sep + rest, sep) == Some((x, rest)),
+{
+    let e = x + sep + rest;
+    let n = x.len() as int;
+    let k = sep.len() as int;
+    axiom_split_once(e, sep);
+    assert(e.subrange(n, n + k) =~= sep);
+    assert(has_sub(e, sep));
+    let sp = split_once_spec(e, sep).unwrap();
+    let p0 = sp.0;
+    let p1 = sp.1;
+    let m = p0.len() as int;
+    assert(e == p0 + sep + p1);
+    assert(e.subrange(m, m + k) =~= sep);
+    if m < n { assert((x + sep + rest).subrange(m, m + k) == sep); }
+    if m > n {
+        if m >= n + k {
+            assert(p0.subrange(n, n + k) =~= e.subrange(n, n + k));
+            assert(has_sub(p0, sep));
+        } else {
+            // the occurrence at m starts inside the occurrence at n: sep[m - n] would be sep[0]
+            assert(e.subrange(m, m + k)[0] == e[m]);
+            assert(e[m] == sep[m - n]);
+        }
+    }
+    assert(m == n);
+    assert(p0 =~= x) by { assert forall|i: int| 0 <= i < n implies p0[i] == x[i] by { assert(e[i] == p0[i]); assert(e[i] == x[i]); } }
+    assert(p1 =~= rest) by {
+        assert(p1.len() == rest.len());
+        assert forall|i: int| 0 <= i < rest.len() implies p1[i] == rest[i] by { assert(e[n + k + i] == p1[i]); assert(e[n + k + i] == rest[i]); }
+    }
+}
+pub open spec fn s_mct_prefix() -> Seq<char> { s_multipart_byteranges() + seq![';', ' '] }
+pub open spec fn s_mct() -> Seq<char> { s_mct_prefix() + s_boundary_eq2() + s_sep() }
+pub proof fn lemma_mct()
+    ensures
+        multipart_content_type() == s_mct(),
+        has_prefix(s_mct(), s_multipart_byteranges()),
+        split_once_spec(s_mct(), s_boundary_eq2()) == Some((s_mct_prefix(), s_sep())),
+        no_crlf(s_mct()),
+{
+    reveal_strlit("multipart"); reveal_strlit("/"); reveal_strlit("byteranges"); reveal_strlit(";"); reveal_strlit(" "); reveal_strlit("boundary"); reveal_strlit("="); reveal_strlit("String_separator");
+    assert(multipart_content_type() =~= s_mct());
+    let x = s_mct_prefix();
+    let sep = s_boundary_eq2();
+    let e = x + sep + s_sep();
+    assert(s_mct().subrange(0, s_multipart_byteranges().len() as int) =~= s_multipart_byteranges());
+    assert forall|k: int| 0 <= k < x.len() implies #[trigger] e.subrange(k, k + sep.len()) != sep by {
+        let w = e.subrange(k, k + sep.len());
+        assert(w[0] == e[k]);
+        assert(w[1] == e[k + 1]);
+        // 'b' occurs in the prefix only at index 10 ("byteranges"), where it is followed by 'y', not 'o'
+        if k != 10 { assert(e[k] != 'b'); } else { assert(e[k + 1] == 'y'); }
+    }
+    assert forall|d: int| 0 < d < sep.len() implies #[trigger] sep[d] != sep[0] by { }
+    lemma_split_once_long(x, sep, s_sep());
+    assert forall|i: int| 0 <= i < s_mct().len() implies #[trigger] s_mct()[i] != '\r' && s_mct()[i] != '\n' by { }
+}
+
+// ---------- the round trip, two or more parts ----------
+pub open spec fn wf_multi(hs: Seq<HV>, list: Seq<ContentRange>, sizes: Seq<nat>) -> bool {
+    list.len() > 1 && wf_mp_list(list, sizes)
+    && (forall|i: int| 0 <= i < hs.len() ==> wf_resp_header(#[trigger] hs[i]) && hs[i].0 != s_content_type())
+    && no_lf_b(utf8_bytes(s_content_type() + colon_sp1() + s_mct()))      // the framing header line (ASCII; stated on the bytes)
+}
+// THEOREM (C15, multipart/byteranges): reading what generate_response wrote for a response with two or more parts returns the
+// same status line, the headers followed by the multipart Content-Type header, and the same parts in order: media type, first and
+// last byte position, size and exactly the body bytes of each.
+pub proof fn theorem_response_roundtrip_multi(v: Seq<char>, code: i16, reason: Seq<char>, hs: Seq<HV>, list: Seq<ContentRange>, sizes: Seq<nat>, method: Seq<char>)
+    requires wf_status(v, code, reason), wf_multi(hs, list, sizes), !bodiless(method),
+    ensures resp_read(response_bytes(v, code, reason, hs, list, method), 0, empty_resps(), 0, response_bytes(v, code, reason, hs, list, method).len() as int)
+        == RespRead::Done(true,
+            RespS { version: v, code: code as int, reason: reason, headers: hs + framing(list), parts: mp_expected(list, sizes) },
+            Seq::<u8>::empty()),
+{
+    reveal_strlit(" "); reveal_strlit("\r\n"); reveal_strlit(""); reveal_strlit("Content-Type");
+    assert(SYMBOL.whitespace@ =~= sp1());
+    assert(SYMBOL.new_line_carriage_return@ =~= crlf_c());
+    assert(Header::_CONTENT_TYPE@ =~= s_content_type());
+    lemma_mct();
+    let fr = framing(list);
+    assert(fr == seq![(s_content_type(), s_mct())]);
+    let all = hs + fr;
+    let d = dec(code as nat);
+    assert(dec_i(code as int) == d);
+    let sl = v + sp1() + d + sp1() + reason;
+    lemma_resp_block_front(all);
+    let head = head_text(v, code, reason, all);
+    assert(status_line(v, code, reason) =~= sl);
+    assert(head =~= (sl + crlf_c()) + resp_block_f(all) + crlf_c());
+    vstd::utf8::encode_utf8_concat((sl + crlf_c()) + resp_block_f(all), crlf_c());
+    vstd::utf8::encode_utf8_concat(sl + crlf_c(), resp_block_f(all));
+    lemma_utf8_text_line(sl);
+    lemma_utf8_text_line(Seq::<char>::empty());
+    vstd::utf8::is_ascii_chars_encode_utf8(Seq::<char>::empty());
+    assert(utf8_bytes(Seq::<char>::empty()) =~= Seq::<u8>::empty());
+    assert(Seq::<char>::empty() + crlf_c() =~= crlf_c());
+    assert(utf8_bytes(crlf_c()) =~= crlf_b());
+    lemma_mp_body_bytes(list, sizes);
+    let mpb = mp_tail(list, sizes);
+    assert(body_bytes(list) == mpb);
+    let data = response_bytes(v, code, reason, hs, list, method);
+    let total = data.len() as int;
+    let x_end = crlf_b() + mpb;
+    let x1 = utf8_bytes(resp_block_f(all)) + x_end;
+    assert(data =~= utf8_bytes(sl) + crlf_b() + x1);
+    lemma_crlf_line(utf8_bytes(sl), x1);
+    lemma_status_line_reads_back(v, code, reason);
+    assert(first_line(data) == utf8_bytes(sl) + crlf_b() && after_line(data) == x1);
+    assert((utf8_bytes(sl) + crlf_b()).len() != 0);
+    let st1 = RespS { version: v, code: code as int, reason: reason, headers: Seq::<HV>::empty(), parts: Seq::<CRV>::empty() };
+    assert(wf_resp_header(fr[0])) by {
+        lemma_no_char(s_content_type(), ':', colon_sp1());
+        assert(colon_sp1()[0] == ':');
+        assert(no_crlf(s_content_type()));
+    }
+    assert(forall|i: int| 0 <= i < all.len() ==> wf_resp_header(#[trigger] all[i])) by {
+        assert forall|i: int| 0 <= i < all.len() implies wf_resp_header(#[trigger] all[i]) by {
+            if i < hs.len() { assert(all[i] == hs[i]); } else { assert(all[i] == fr[i - hs.len()]); }
+        }
+    }
+    let br1 = (utf8_bytes(sl) + crlf_b()).len() as int;
+    lemma_resp_read_headers(all, x_end, 1, st1, br1, total);
+    assert(Seq::<HV>::empty() + all =~= all);
+    // the blank line, then the multipart body
+    let e = Seq::<u8>::empty();
+    assert(x_end =~= e + crlf_b() + mpb);
+    assert(no_lf_b(e));
+    lemma_crlf_line(e, mpb);
+    assert(e + crlf_b() =~= crlf_b());
+    assert(all_ws(crlf_c())) by { axiom_trim(crlf_c()); }
+    lemma_trim_all_ws(crlf_c());
+    lemma_ctype_after(hs, fr, 0);
+    assert(all[hs.len() as int] == fr[0]);
+    assert(ctype_of(all) == Some(s_mct()));
+    let br2 = br1 + utf8_bytes(resp_block_f(all)).len() + 2;
+    assert(br2 + mpb.len() == total);
+    lemma_mp_read_all(list, sizes, br2, total);
+}
